@@ -183,4 +183,21 @@ CLAIMS = {
                 "the check's interpreter.",
         "technique": "differential / metamorphic property-based testing across undefined policies (Hypothesis)",
     },
+    "C13": {
+        "level": "Bounded-exhaustive + generated search: every template name of <= 3 path segments (quick; <= 4 thorough, "
+                 "39k names) from a path grammar ('.', '..', empty, leading/trailing/doubled separators, absolute paths "
+                 "of outside files, default-extension interplay, unicode) x 5 loader kinds (FileSystem, "
+                 "CachingFileSystem, Package, Choice, CachingChoice) x search-path / extension configurations x sync and "
+                 "async x 4 access paths (get_template, include with the name as data, render and extends with the "
+                 "name as a literal): 50k cases / 371k loads quick, 907k cases / 6.7M loads thorough, plus Hypothesis-"
+                 "generated longer / unicode / NUL names. A sandbox tree of 55 token files decides: a returned template "
+                 "must come from a file whose realpath is inside a configured root and be the one the reference "
+                 "resolution selects; absolute or '..' names must give TemplateNotFoundError; every inside file is "
+                 "loadable (completeness control). Thorough is exhaustive for the grammar; quick is not.",
+        "design_ref": "DESIGN.md §3 C13",
+        "note": "No symlinks in the sandbox; run_in_executor jobs of the async loaders run inline on the loop thread "
+                "(LV_C13_THREADS=1 restores a pool); directories inside a root and non-Liquid exceptions are out of scope "
+                "(C02).",
+        "technique": "bounded-exhaustive enumeration of path names + property-based generation against a reference resolver",
+    },
 }
